@@ -2,6 +2,9 @@ module pdsim
 
 go 1.25
 
-require github.com/tikv/pd v0.0.0
+require (
+	github.com/anishathalye/porcupine v1.3.0
+	github.com/tikv/pd v0.0.0
+)
 
 replace github.com/tikv/pd => /repo
